@@ -43,7 +43,7 @@ def build_family(family, variant, cases_path, subset_lines=None):
         return vlib.build(variant, EXACT_SOURCES)
     import gen_expr
     all_lines = subset_lines if subset_lines is not None else open(cases_path).read().splitlines()
-    gdir = os.path.join(vlib.CACHE, "gen_src", vlib.sha(vlib.tree_hash([cases_path]), "v2",
+    gdir = os.path.join(vlib.CACHE, "gen_src", vlib.sha(vlib.tree_hash([cases_path]), "v3",
                                                         vlib.sha("\n".join(sorted(subset_lines))) if subset_lines is not None else "all"))
     marker = os.path.join(gdir, "done")
     if not os.path.exists(marker):
@@ -468,7 +468,7 @@ def c09(ctx):
     # operator expressions: every placement of a spline factor relative to the operand, forms, primitives
     def opsel(c):
         if c["op"] == "OpApply":
-            return (len(c["fs"]) > 0 and (not quick or c["ast"]["k"] in ("Spl", "Prod", "Sum", "ScalL"))) or (c["tag"] == "prim" and pick(c, 4)) or (not quick)
+            return (len(c["fs"]) > 0 and (not quick or c["ast"]["k"] in ("Spl", "Prod", "Sum", "ScalL"))) or (c["tag"] == "prim" and pick(c, 4)) or c["tag"] == "hi" or (not quick)
         return c["tag"] == "foreign" or len(c["fs"]) > 0 or pick(c, 16)
     stateless(ctx, "Ops", {"OpApply", "OpBF"}, variant="san", case_filter=opsel, build_subset=quick)
     lifecycle(ctx, "C09", variants=("san",), bfs=not quick, nsim=200 if quick else None)
@@ -602,7 +602,7 @@ def c01(ctx):
 def c04(ctx):
     err = None
     try:
-        stateless(ctx, "Ops", {"OpApply"}, case_filter=lambda c: c["tag"] == "prim")
+        stateless(ctx, "Ops", {"OpApply"}, case_filter=lambda c: c["tag"] in ("prim", "hi"))
     except BuildError as e:
         err = e         # the exact archetype does not build (C19 reports that): the floating half below still decides
     # the primitive operators in float, double, long double (E and S from TLC), incl. operands whose coefficients
